@@ -29,11 +29,12 @@ type Check struct {
 	Level     string // evidence level: exploration | model_checking | fault_enumeration
 	Rule      string // how cases are enumerated and what makes one non-trivial
 	Assume    []string
-	Workers   int                                  // 0 = 16
-	Run       func(c *Ctx)                         // executed in every worker
+	Workers   int                                    // 0 = 16
+	Run       func(c *Ctx)                           // executed in every worker
 	Replay    func(c *Ctx, r json.RawMessage) string // re-execute one recorded case; returns the violated clause or ""
-	Race      bool                                 // needs the -race build (informational for bin/check)
-	Finalize  func(c *Ctx, merged *Result)         // parent-side cross-shard checks (optional)
+	Race      bool                                   // needs the -race build (informational for bin/check)
+	Finalize  func(c *Ctx, merged *Result)           // parent-side cross-shard checks (optional)
+	Collapse  bool                                   // violations of one clause collapse into the shortest signature (history searches)
 	TimeQuick time.Duration
 	TimeThor  time.Duration
 }
@@ -125,6 +126,14 @@ func (c *Ctx) Sample(v any) {
 
 // Violate records a violation under its signature (first case wins as the replay).
 func (c *Ctx) Violate(sig, clause, detail string, cs any) {
+	if ck := checks[c.ID]; ck != nil && ck.Collapse {
+		for _, v := range c.Res.Violations {
+			if v.Clause == clause && (len(v.Sig) < len(sig) || (len(v.Sig) == len(sig) && v.Sig <= sig)) {
+				v.Count++
+				return
+			}
+		}
+	}
 	if v, ok := c.vmap[sig]; ok {
 		v.Count++
 		return
@@ -430,6 +439,26 @@ func runParent(id, tier string) int {
 		if codes[i] != 0 && codes[i] != 3 {
 			fmt.Fprintf(os.Stderr, "worker %d exited with %d\n", i, codes[i])
 			harnessErr = true
+		}
+	}
+	if ck.Collapse {
+		best := map[string]*Violation{}
+		for _, v := range total.Violations {
+			b, ok := best[v.Clause]
+			if !ok {
+				best[v.Clause] = v
+				continue
+			}
+			if len(v.Sig) < len(b.Sig) || (len(v.Sig) == len(b.Sig) && v.Sig < b.Sig) {
+				v.Count += b.Count
+				best[v.Clause] = v
+			} else {
+				b.Count += v.Count
+			}
+		}
+		total.Violations = nil
+		for _, v := range best {
+			total.Violations = append(total.Violations, v)
 		}
 	}
 	c := &Ctx{ID: id, Tier: tier, Seed: seed(), NWorkers: n, Res: total, vmap: map[string]*Violation{}}
